@@ -2,6 +2,8 @@ import GrinVerif.Drv.Common
 import GrinVerif.Model.Conc
 import GrinVerif.Model.TxCount
 import GrinVerif.Gen.Locks
+import GrinVerif.Model.ConcNode
+import GrinVerif.Gen.LocksNode
 /-! Driver glue for the `conc` domain (C17). The tie of this property to the code is mostly the
 regenerated lock table; the lines handled here connect the harness to that table:
 
@@ -48,6 +50,18 @@ regenerated lock table; the lines handled here connect the harness to that table
   Chain; expected `ok`; the `conc sim` line of the episode replays the `Desegmenter::…` entries of
   the regenerated table (each under the caller's `pibd_desegmenter.write()`) together with the
   chain ops of the other threads; the final state goes through the `chain` domain;
+* (session 9, node level) `conc nodeclass <entry> => <lock.mode,…>`: the set of locks (with modes, in
+  first-acquisition order) the harness run `node` assumes an entry point of the NODE-level table takes
+  (`Gen/LocksNode.lean`, regenerated from servers/src/common/adapters.rs, pool/src, chain/src/types.rs,
+  mine_block.rs, dandelion_monitor.rs) against `locksTaken` over the table;
+  `conc nodesim seed=<n> progs=<entry+entry+…,…> => finished`: the per-thread sequences of node-level
+  entry points the harness really ran on ONE node (real `ServerTxPool`, real adapters, real Chain),
+  replayed as lock programs over the node alphabet on the generic transition system under strict writer
+  preference (3 schedules); the programs must be well bracketed and their order graph must pass the
+  acyclicity certificate (`acyclicB`);
+  `conc nodetablecheck => ok`: the whole node table is well bracketed and its order graph certified
+  (names the offending entries / prints the graph otherwise);
+  `conc node round=… => ok`: the run's verdict (no stall, no panic, pool consistent with the chain);
 * the final (head, unspent set) of a concurrent run is compared by the `chain` domain
   (`chain obs <twin> => …`), not here. -/
 namespace GV.Drv.ConcD
@@ -85,8 +99,48 @@ def tableViolations : String :=
   if o.isEmpty && c.isEmpty && k.isEmpty then "ok"
   else s!"violations:order{o};commit-outside-write-lock{c};callback-under-lock{k}"
 
+/-- everything a node thread can run (the same list as `Props/C17Node.fullNodeTable`) -/
+def nodeAll : List (String × List NodeEv) := GV.Gen.nodeTable ++ GV.Gen.chainTableN
+
+def nodeProgOf (names : List String) : Option (List NodeEv) :=
+  (names.mapM (fun n => nodeAll.lookup n)).map List.flatten
+
+def nodeSimAll (progs : List (List NodeEv)) (seed : Nat) : String :=
+  if !(progs.all (bracketedFrom [])) then "not-bracketed"
+  else if !(acyclicB (dedup (progs.flatMap (edgesFrom [])))) then "order-graph-cyclic"
+  else
+    let total := (progs.map List.length).sum
+    let s0 : State NLock := init progs
+    let r := [seed, seed + 7919, seed * 31 + 1].filterMap (fun sd => simulateG (total + 1) sd s0)
+    match r with
+    | [] => "finished"
+    | i :: _ => s!"model-stuck-thread-{i}"
+
+def nodeTableViolations : String :=
+  let nb := (nodeAll.filter (fun e => !bracketedFrom [] e.2)).map (·.1)
+  let g := orderGraph nodeAll
+  if nb.isEmpty && acyclicB g then "ok"
+  else s!"violations:not-bracketed{nb};graph{g.map (fun e => e.1.name ++ ">" ++ e.2.name)}"
+
 def handle (st : St) (args : List String) (impl : String) : St × Verdict :=
   match args with
+  | ["nodetablecheck"] => (st, cmpModel nodeTableViolations impl)
+  | ["nodeclass", op] =>
+    match nodeAll.lookup op with
+    | some p => (st, cmpModel (",".intercalate (locksTaken p)) (if impl == "-" then "" else impl))
+    | none => (st, .diff "entry-not-in-node-table")
+  | "nodesim" :: rest =>
+    match (kvArg rest "seed").bind String.toNat?, kvArg rest "progs" with
+    | some seed, some ps =>
+      let threads := (ps.splitOn ",").map (fun t => (t.splitOn "+").filter (fun x => !x.isEmpty))
+      match threads.mapM nodeProgOf with
+      | some progs => ({ st with sims := st.sims + 1 }, cmpModel (nodeSimAll progs seed) impl)
+      | none => (st, .diff "entry-not-in-node-table")
+    | _, _ => (st, .unknown)
+  | "node" :: rest =>
+    match kvArg rest "round", kvArg rest "threads" with
+    | some _, some _ => (st, cmpModel "ok" impl)
+    | _, _ => (st, .unknown)
   | ["tablecheck"] => (st, cmpModel tableViolations impl)
   | ["selftest", which] =>
     -- the harness ran these tiny programs on the REAL lock objects of a Chain (through the Arcs of
